@@ -11,7 +11,8 @@
    Integers are little endian at their width; bool is one byte 0/1 (anything else is an error);
    Vec<T> = u32 length then the items; Vec<u8> / String = u32 length then the bytes (String: the bytes
    must be well-formed UTF-8, core::str::from_utf8); Option<T> = tag 0 | 1 then the value (other
-   tags are errors); a struct = its fields in declaration order.
+   tags are errors); a struct = its fields in declaration order; BTreeSet<u8> = u32 length then the
+   elements, written ascending and read in any order, duplicates dropped.
    Bytes are Z in 0..255; decoders reject integers outside that range (such inputs do not exist on
    the Rust side; this makes "decoded values are well-formed" hold without a side condition). *)
 From SF Require Import Base.Prelude.
@@ -100,6 +101,54 @@ Definition bytes_to (l : list Z) : list Z := zlen l :: l.
 
 Definition c_bytes : codec (list Z) :=
   mkCodec bytes_ser bytes_de (fun l => bytes_ok l = true /\ zlen l < U32_LIMIT) bytes_to bytes_of.
+
+(* ---------------- BTreeSet<u8> ---------------- *)
+(* borsh 1.5.7 without the `de_strict_order` feature reads a BTreeSet<T> as a Vec<T> and collects it: the
+   elements are accepted in ANY order and with duplicates; the serializer iterates the set, i.e. writes the
+   elements strictly ascending.  So one value has many accepted encodings and exactly one written encoding.
+   A value is represented by the strictly ascending list of its elements. *)
+Fixpoint set_ins (x : Z) (l : list Z) : list Z :=
+  match l with
+  | [] => [x]
+  | y :: r => if x <? y then x :: l else if x =? y then l else y :: set_ins x r
+  end.
+
+Fixpoint set_norm (l : list Z) : list Z :=
+  match l with
+  | [] => []
+  | x :: r => set_ins x (set_norm r)
+  end.
+
+Definition set_del (x : Z) (l : list Z) : list Z := filter (fun y => negb (y =? x)) l.
+
+(* lo < every element, and the elements are strictly ascending *)
+Fixpoint asc_from (lo : Z) (l : list Z) : Prop :=
+  match l with
+  | [] => True
+  | x :: r => lo < x /\ asc_from x r
+  end.
+
+Definition asc (l : list Z) : Prop :=
+  match l with
+  | [] => True
+  | x :: r => asc_from x r
+  end.
+
+Definition set_de (l : list Z) : option (list Z * list Z) :=
+  match bytes_de l with
+  | Some (bs, r) => Some (set_norm bs, r)
+  | None => None
+  end.
+
+(* case files may list the elements in any order: parsed values are normalised *)
+Definition set_of (l : list Z) : option (list Z * list Z) :=
+  match bytes_of l with
+  | Some (bs, r) => Some (set_norm bs, r)
+  | None => None
+  end.
+
+Definition c_set : codec (list Z) :=
+  mkCodec bytes_ser set_de (fun l => asc l /\ bytes_ok l = true /\ zlen l < U32_LIMIT) bytes_to set_of.
 
 (* ---------------- String ---------------- *)
 Definition cont (b : Z) : bool := (128 <=? b) && (b <=? 191).
@@ -211,7 +260,7 @@ Definition c_vec {A} (ca : codec A) : codec (list A) :=
           (fun l => zlen l :: concat (map (c_to ca) l))
           (vec_of (c_of ca)).
 
-(* ---------------- the four account types of the harness (harness/src/bin/vh_c15.rs) ---------------- *)
+(* ---------------- the five account types of the harness (harness/src/bin/vh_c15.rs) ---------------- *)
 (* struct Fx { a: u64, b: u32, c: u8, d: bool } *)
 Definition TFx : Type := Z * (Z * (Z * bool)).
 Definition c_fx : codec TFx := c_pair (c_uint 8) (c_pair (c_uint 4) (c_pair (c_uint 1) c_bool)).
@@ -224,3 +273,5 @@ Definition TNs : Type := Z * ((bool * list Z) * (list (Z * list Z) * option Z)).
 Definition c_it : codec (Z * list Z) := c_pair (c_uint 2) c_bytes.
 Definition c_ns : codec TNs :=
   c_pair (c_uint 4) (c_pair (c_pair c_bool c_string) (c_pair (c_vec c_it) (c_option (c_uint 8)))).
+(* struct Sb { set: BTreeSet<u8> }  (a type with non-canonical accepted encodings) *)
+Definition c_sb : codec (list Z) := c_set.
